@@ -199,7 +199,12 @@ def recognise_cursor_merge(fi: FuncInfo, rule: str) -> Tuple[Optional[MergeRoles
     # (a) loop condition  c1 + c2 < N1 + N2 - 2
     exp_loop = C.mk_cmp('lt', C.add(C.atom(('n', c1)), C.atom(('n', c2))),
                         C.add(C.add(C.atom(('n', n1)), C.atom(('n', n2))), C.const(-2)))
-    good &= req(lt == exp_loop, 'merge loop runs while c1+c2 < N1+N2-2 (every spike of both trains is consumed, '
+    # the same condition spelled per train: since a cursor only advances under its own `cursor < N-1` guard (checked
+    # below) and starts at -1 or 0, it never exceeds N-1, so `c1+c2 < N1+N2-2` holds exactly when one of the two
+    # cursors is still below its bound
+    alt_loop = C.mk_bool('or', [C.mk_cmp('lt', C.atom(('n', c1)), C.add(C.atom(('n', n1)), C.const(-1))),
+                                C.mk_cmp('lt', C.atom(('n', c2)), C.add(C.atom(('n', n2)), C.const(-1)))])
+    good &= req(lt in (exp_loop, alt_loop), 'merge loop runs while c1+c2 < N1+N2-2 (every spike of both trains is consumed, '
                 'none twice)', lp[1], f"found {C.show(lt)}, expected {C.show(exp_loop)}", 'loop-condition')
     # (b) first conjuncts: strict, offset +1
     for tag, b, node in (('A', bA, sA[3][0]), ('B', bB, sB[3][0])):
